@@ -186,6 +186,8 @@ class Report:
     def __init__(self, pid: str, tier: str, seed: int):
         self.pid, self.tier, self.seed = pid, tier, seed
         self.t0 = time.time()
+        self.t_round = self.t0          # start of the current generation round (reset by the runner)
+        self.round_budget: float | None = None      # seconds for the current round, when the runner sets one
         self.evaluations = 0
         self.nontrivial: set = set()
         self.samples: list = []
@@ -201,6 +203,19 @@ class Report:
     def count(self, table: str, key: str, k: int = 1) -> None:
         t = self.hist.setdefault(table, {})
         t[key] = t.get(key, 0) + k
+
+    def stop(self) -> bool:
+        """enough has been seen: ten violations are on record, or the time budget for exercising the
+        implementation (quick 4 min, thorough 40 min per round; search rounds 90 s / 10 min) is used up — a defective or very slow
+        implementation must not keep a check running for hours; what was not reached is noted"""
+        if len(self.violations) >= 10:
+            return True
+        budget = self.round_budget or float(os.environ.get("VERIF_CASE_BUDGET_S", "240" if self.tier == "quick" else "2400"))
+        if time.time() - self.t_round > budget:
+            if not any(n.startswith("time budget") for n in self.notes):
+                self.notes.append(f"time budget of {budget:.0f}s for exercising the implementation used up; remaining generated cases not run")
+            return True
+        return False
 
     def skip(self, why: str, n: int = 1) -> None:
         self.skipped[why] = self.skipped.get(why, 0) + n
